@@ -64,6 +64,7 @@ Definition oval_of_bval (b : bval) : oval :=
   | BScalar t sv => OVS (s_id t) sv
   | BPtr id t sv => OVPtr id (s_id t) sv
   | BJson id form => OVRepr id form
+  | BPtrO id => OVRepr id ""
   end.
 
 (* insertion sorts used to canonicalise (the harness sorts the same way) *)
